@@ -387,3 +387,46 @@ def prefix_fits_fact(fs):
         if uni or plain:
             return True
     return False
+
+
+def refold(ev, t):
+    """rebuild a term after a substitution: payload(<Err(..) | Ok(v)>, Ok, 0) -> v, field(struct, name) -> the field's value"""
+    from sym import Lin, add, scale, const, struct_get
+    if isinstance(t, Lin):
+        out = const(t.c)
+        for a, c in t.m.items():
+            out = add(out, scale(refold(ev, a), c))
+        return out
+    if not isinstance(t, tuple):
+        return t
+    t = tuple(refold(ev, x) if isinstance(x, (tuple, Lin)) else x for x in t)
+    tg = tag(t)
+    if tg == "payload" and len(t) == 4:
+        x, vn, i = t[1], t[2], t[3]
+        if tag(x) == "vsum":
+            for n_, p_ in x[2]:
+                if n_ == vn and isinstance(i, int) and i < len(p_):
+                    return p_[i]
+        return ev._payload(x, vn, i)
+    if tg == "field" and tag(t[1]) == "struct":
+        v = struct_get(t[1], t[2])
+        if v is not None:
+            return v
+    return t
+
+
+def chosen_call_join(terms):
+    """a join, inside the terms, of the results of calls that a dispatch chose between (`let f = match kind { A => Self::a, B => Self::b }; f(..)` or a
+    combinator distributed over such a join): the phi term or None.  The value is one of its alternatives, so a judgement that holds for each alternative
+    holds for the join."""
+    from sym import _walk_terms
+    hit = []
+
+    def grab(x):
+        if (not hit and tag(x) == "phi" and len(x) > 4 and isinstance(x[2], tuple) and x[2] and x[2][0] in ("fnptr", "comb") and len(x[3]) >= 2
+                and not any(mentions(a, x) for a in x[3])):
+            hit.append(x)
+        return None
+    for t in terms:
+        _walk_terms(t, grab)
+    return hit[0] if hit else None
